@@ -386,7 +386,7 @@ def _harness_run(sd, binp, chunks, tag, settle_ms=60):
         # resource guard of the process: what the model says these jobs leave behind legitimately, plus a margin
         legit = sum(j["reps"] * sum(x["n"] * (1 + x["w"]) for x in j.get("expect") or []) for j in ch)
         env.update(VERIF_IN=jf, VERIF_OUT=tr, VERIF_WORK=w, VERIF_INITPROG=init, EGO_PATH=vf.REPO,
-                   VERIF_SETTLE_MS=str(settle_ms), VERIF_FINAL_EVERY="120", VERIF_MAX_GOROUTINES=str(legit + (150 if all(j["hasexp"] for j in ch) else 600)))
+                   VERIF_SETTLE_MS=str(settle_ms), VERIF_FINAL_EVERY="120", VERIF_EXEC_LIMIT_S=os.environ.get("VERIF_C09_EXEC_LIMIT_S", "900" if vf.TIER == "thorough" else "420"), VERIF_MAX_GOROUTINES=str(legit + (150 if all(j["hasexp"] for j in ch) else 600)))
         # ego derives its runtime path (where the DSN database of the start-up lives) from the directory of argv[0]:
         # every process gets a private one
         lnk = os.path.join(w, "c09.test")
@@ -398,7 +398,9 @@ def _harness_run(sd, binp, chunks, tag, settle_ms=60):
     for (rc, so, se), p in zip(res, procs):
         if rc is None:
             raise vf.NoVerdict("harness process timed out (%s): an execution did not return\n%s" % (tag, (so + se)[-3000:]))
-        if rc != 0 or not os.path.exists(p[4]):
+        if rc == 3 and os.path.exists(p[4]):
+            vf.log("harness process %s ended by its execution-time guard; its log is judged as truncated" % p[2])
+        elif rc != 0 or not os.path.exists(p[4]):
             raise vf.NoVerdict("harness process failed (%s rc=%s)\n%s" % (tag, rc, (so + se)[-4000:]))
         traces.append(p[4])
     return traces
